@@ -46,11 +46,12 @@ CLAIMED = {
     'C11': ('Lean 4 proof: import∘export = id on every transition, state and contract (dict level) + correspondence through the real YAML text layer — partial',
             'transition_roundtrip(_eq), state_roundtrip (all six kinds), contract_roundtrip for elements with stripped non-empty code. PARTIAL: '
             'the chart-level statement and the YAML text layer (ruamel, schema coercions) are covered by the tie only; open findings K4, K5. ' + TIE, '§6 C11'),
-    'C12': ('Lean 4 proof: accepted ⇒ structurally sound (invariant of add_state/add_transition/validate over the import fold) + fault-injection correspondence — partial',
+    'C12': ('Lean 4 proof: accepted ⇒ structurally sound (invariant of add_state/add_transition/validate over the import fold); never another exception type (schema-shape lemma + work-list fuel bound) + fault-injection correspondence',
             'accepted_is_sound (unique names, one tree, parents composite and registered first, history under compound, transitions anchored, '
-            'validate), initial_is_direct_child, memory_is_other_sibling, all_registered, schema_violation_is_statechart_error, unknown_key_rejected, '
-            'both_child_kinds_rejected, state_errors_are_statechart_errors. PARTIAL: "never another exception type" for the uncaught accesses of '
-            'import_from_dict after schema validation is checked by the tie on every injected fault, not proved. ' + TIE, '§6 C12'),
+            'validate), initial_is_direct_child, memory_is_other_sibling, all_registered, never_another_exception (for EVERY loaded document the '
+            'outcome is a statechart or StatechartError), schema_violation_is_statechart_error, unknown_key_rejected, both_child_kinds_rejected, '
+            'state_errors_are_statechart_errors. The YAML text layer (ruamel load) and the schema library are modelled by their semantics on the '
+            'shapes SCHEMA uses. ' + TIE, '§6 C12'),
     'C13': ('Lean 4 proof: time frame relation over execute_once (time = sampled clock value throughout, carried by step started / MacroStep / queue) + correspondence',
             'time_is_the_sampled_value, macrostep_time, step_started_carries_it, queue_keeps_time for all outcomes. ' + TIE, '§6 C13'),
     'C14': ('Lean 4 proof over an ordered field (Mathlib): SimulatedClock time is monotone, exact, frozen when stopped + correspondence over rationals',
